@@ -398,6 +398,10 @@ def run_shard(ctx):
         if idx == 0:
             ctx.sample({'e2e_doctest': ['>>> # xdoctest: <flags %s>' % (bits,), '>>> print(%r)' % got] + want.split('\n')})
     judge.flush()
+    if ctx.shard == ctx.nshards - 1:
+        from xv import repo_ridealong
+        if repo_ridealong.run(ctx, ('C05',)):
+            ctx.cell('repo-tests-ridealong')
 
 
 def replay(case, ctx):
